@@ -2169,6 +2169,7 @@ def snapshot_globals():
 PASS2 = ["argcombo", "errors", "gradmode", "duck", "copies", "ownership", "interleave"]
 PASS3 = ["static", "torchb", "sig", "effects", "dispatch"]
 PASS4 = ["defaults", "modeorder", "subclass", "large"]
+PASS5 = ["poison", "dtypes", "shared_defaults", "callbacks", "propsubclass"]
 
 
 def guarded(ctx: Ctx, name, fn):
@@ -2197,6 +2198,9 @@ def run(ctx: Ctx):
     originals()                      # remember the pristine torch attributes before anything patches them
     snap = snapshot_globals()
     names = stream_regen(ctx)
+    # round 5 (class 32): before ANYTHING else has run — baseline of every entry point, then every op on degenerate shapes
+    from . import util_c06e as B5
+    guarded(ctx, "poison", lambda: B5.stream_poison(ctx))
     # first of all the grad-mode orders on fresh keys: a module-level cache must still be empty for them
     from . import util_c06d as B4a
     guarded(ctx, "modeorder", lambda: B4a.stream_modeorder(ctx))
@@ -2215,6 +2219,10 @@ def run(ctx: Ctx):
     guarded(ctx, "defaults", lambda: B4.stream_defaults(ctx, names))
     guarded(ctx, "subclass", lambda: B4.stream_subclass(ctx))
     guarded(ctx, "large", lambda: B4.stream_large(ctx))
+    guarded(ctx, "dtypes", lambda: B5.stream_dtypes(ctx, names))
+    guarded(ctx, "shared_defaults", lambda: B5.stream_shared_defaults(ctx))
+    guarded(ctx, "callbacks", lambda: B5.stream_callbacks(ctx))
+    guarded(ctx, "propsubclass", lambda: B5.stream_propsubclass(ctx))
     from . import util_c06b as B2
     for nm2 in PASS2:
         guarded(ctx, nm2, (lambda f: lambda: f(ctx))(getattr(B2, "stream_" + nm2)))
@@ -2226,6 +2234,7 @@ def run(ctx: Ctx):
     guarded(ctx, "unary", lambda: stream_unary(ctx))
     guarded(ctx, "purity", lambda: stream_purity(ctx))
     guarded(ctx, "bcast", lambda: stream_bcast(ctx))
+    guarded(ctx, "poison-final", lambda: B5.poison_final(ctx))
     if not _slots_ok(originals()):
         ctx.fail({"kind": "retain-final"}, "retain: at the end of the run the torch attributes are not the originals")
     after = snapshot_globals()
@@ -2282,6 +2291,10 @@ def replay(ctx: Ctx, case) -> bool:
         from . import util_c06d as B4
         torch.set_num_threads(1)
         getattr(B4, "stream_" + kind)(ctx)
+    elif kind in ("poison", "dtypes", "shared_defaults", "callbacks", "propsubclass"):
+        from . import util_c06e as B5
+        torch.set_num_threads(1)
+        getattr(B5, "stream_" + kind)(ctx)
     elif kind in ("static", "torchb", "sig", "effects", "dispatch"):
         from . import util_c06c as B3
         getattr(B3, "stream_" + kind)(ctx)
@@ -2298,7 +2311,9 @@ def replay(ctx: Ctx, case) -> bool:
          "purity": lambda: stream_purity(ctx), "bcast": lambda: stream_bcast(ctx),
          **{n2: (lambda n2=n2: getattr(__import__("harness.util_c06b", fromlist=["x"]), "stream_" + n2)(ctx)) for n2 in PASS2},
          **{n3: (lambda n3=n3: getattr(__import__("harness.util_c06c", fromlist=["x"]), "stream_" + n3)(ctx)) for n3 in PASS3},
-         **{n4: (lambda n4=n4: getattr(__import__("harness.util_c06d", fromlist=["x"]), "stream_" + n4)(ctx)) for n4 in PASS4}}[which]()
+         **{n4: (lambda n4=n4: getattr(__import__("harness.util_c06d", fromlist=["x"]), "stream_" + n4)(ctx)) for n4 in PASS4},
+         **{n5: (lambda n5=n5: getattr(__import__("harness.util_c06e", fromlist=["x"]), "stream_" + n5)(ctx)) for n5 in PASS5},
+         "poison-final": lambda: __import__("harness.util_c06e", fromlist=["x"]).stream_poison(ctx)}[which]()
     elif kind == "regime":
         check_regime(ctx, c)
     elif kind == "regime2":
